@@ -524,7 +524,11 @@ def evaluate_z3_seq_at(
 
     return Some(
         construct_result(
-            lambda args: cast(str, args[0])[cast(int, args[1])], children_results
+            # SMT-LIB: the empty string if the index is out of range.
+            lambda args: cast(str, args[0])[cast(int, args[1]) : cast(int, args[1]) + 1]
+            if cast(int, args[1]) >= 0
+            else "",
+            children_results,
         )
     )
 
@@ -537,9 +541,12 @@ def evaluate_z3_seq_extract(
 
     return Some(
         construct_result(
+            # SMT-LIB: the empty string for a negative start index or length.
             lambda args: cast(str, args[0])[
                 cast(int, args[1]) : cast(int, args[1]) + cast(int, args[2])
-            ],
+            ]
+            if cast(int, args[1]) >= 0 and cast(int, args[2]) > 0
+            else "",
             children_results,
         )
     )
@@ -557,7 +564,8 @@ def evaluate_z3_str_to_code(
 
     return Some(
         construct_result(
-            lambda args: ord(args[0]),
+            # SMT-LIB: -1 unless the argument is a single character.
+            lambda args: ord(args[0]) if len(args[0]) == 1 else -1,
             children_results,
         )
     )
